@@ -12,6 +12,7 @@ import time
 import traceback
 
 ROOT = os.path.dirname(os.path.dirname(os.path.abspath(__file__)))
+OUT = os.environ.get("PYVC_OUT", ROOT)  # where evidence/ and replays/ are written (seed runs against scratch copies use their own)
 sys.path.insert(0, ROOT)
 
 GLOBAL_ASSUMPTIONS = [
@@ -150,7 +151,7 @@ def decide(prop, mod, results, tier, seed, wall):
     functions = {}
     solver_s = 0.0
     crash = []
-    replays_dir = os.path.join(ROOT, "replays")
+    replays_dir = os.path.join(OUT, "replays")
     for r in results:
         for f in r.get("functions", []):
             functions[(f["file"], f["function"])] = f
@@ -372,7 +373,7 @@ def main(argv=None):
         return replaycmd.main(prop, a.replay)
     os.environ["VERIF_TIER"] = a.tier
     import glob
-    for old in glob.glob(os.path.join(ROOT, "replays", f"{prop}.*.json")):
+    for old in glob.glob(os.path.join(OUT, "replays", f"{prop}.*.json")):
         os.unlink(old)  # replay files of earlier runs of this property
     try:
         mod, results, wall = run_property(prop, a.tier, seed, a.only, a.jobs)
@@ -381,8 +382,8 @@ def main(argv=None):
         print(f"CHECKER-ERROR property={prop} {traceback.format_exc()}")
         return 3
     if a.only is None:
-        os.makedirs(os.path.join(ROOT, "evidence"), exist_ok=True)
-        with open(os.path.join(ROOT, "evidence", f"{prop}.json"), "w") as f:
+        os.makedirs(os.path.join(OUT, "evidence"), exist_ok=True)
+        with open(os.path.join(OUT, "evidence", f"{prop}.json"), "w") as f:
             json.dump(ev, f, indent=1, default=str)
     for ln in lines:
         print(ln)
